@@ -99,15 +99,25 @@ let parse_case (c : Sx.t) : case =
     { reg = parse_reg reg; rootp = Sx.int rp; rootv = Sx.int rv; trace = List.map parse_ev evs; extra }
   | _ -> failwith "solver: unknown case"
 
+(* The model is run with the exact priority queue (resolve_h, Model/Heap.v).  When the package the
+   implementation picked is not the one the modelled heap pops (outcome OMismatch (_, 6)) the run is
+   repeated with the queue as a map (resolve: any package of maximal priority is accepted) so that the
+   other fields stay comparable; the disagreement is reported in the (heap ...) field (C07, C14). *)
 let run_model (c : case) =
-  resolve RZ.range_vs Z.eqb fuel (n_of_int c.rootp) (z_of_int c.rootv) (List.map model_ev c.trace)
+  let tr = List.map model_ev c.trace in
+  let r = resolve_h RZ.range_vs Z.eqb fuel (n_of_int c.rootp) (z_of_int c.rootv) tr in
+  match r with
+  | (((OMismatch (n, w), _), _), _) when int_of_n w = 6 ->
+    (resolve RZ.range_vs Z.eqb fuel (n_of_int c.rootp) (z_of_int c.rootv) tr, sp "(heap pick-differs %d)" (int_of_nat n))
+  | _ -> (r, "(heap ok)")
 
 (* memo of the last case so that eval and oracle share one model run *)
 let last : (Sx.t * ((RZ.range, z) outcome * (RZ.range, z) state * (((n * RZ.range) list * (n * (z * RZ.range)) list) * nat) list)) option ref = ref None
+let last_heap : str ref = ref "(heap ok)"
 let model_of (cs : Sx.t) (c : case) =
   match !last with
   | Some (k, r) when k == cs -> r
-  | _ -> let (((o, st), log), _consumed) = run_model c in let r = (o, st, log) in last := Some (cs, r); r
+  | _ -> let ((((o, st), log), _consumed), hp) = run_model c in let r = (o, st, log) in last := Some (cs, r); last_heap := hp; r
 
 let store_sx (st : (RZ.range, z) state) : str =
   let entry (i : (RZ.range, z) incompat) =
@@ -120,7 +130,7 @@ let store_sx (st : (RZ.range, z) state) : str =
 let eval (cs : Sx.t) : str =
   let c = parse_case cs in
   let (o, st, _) = model_of cs c in
-  sp "(res %s) %s" (outcome_sx o) (store_sx st)
+  sp "(res %s) %s %s" (outcome_sx o) (store_sx st) !last_heap
 
 (* ---------------------------------------------------------------- oracles *)
 let has (s : RZ.range) (v : int) = List.exists (fun sg -> D_ranges.seg_has sg v) s
